@@ -456,9 +456,13 @@ def gen_C19(seed):
     nops = r.choice([1, 1, 2, 3])
     ops = []
     cur = t0
+    against = r.random() < 0.15          # the whole run heads against the declared (t0, tf) span (still monotone)
     for j in range(nops):
         op = {"op": "integrate"}
-        if j < nops - 1:
+        if against:
+            op["t"] = round(cur - (tf - t0) * r.uniform(0.2, 0.6), 6)
+            cur = op["t"]
+        elif j < nops - 1:
             op["t"] = round(cur + (tf - cur) * r.uniform(0.2, 0.8), 6)
             cur = op["t"]
         ops.append(op)
@@ -467,7 +471,7 @@ def gen_C19(seed):
     if rf.random() < 0.2:
         i = rf.randrange(len(ops))
         scn["faults"].append({"op": i, "seam": "rhs", "at": rf.randrange(1, 100), "kind": "raise"})
-        ops.append({"op": "integrate"})
+        ops.append(dict(ops[-1]) if against else {"op": "integrate"})
     return scn
 
 
@@ -693,12 +697,30 @@ def gen_EV(seed, profile):
         e["scale"] = sc
     if profile == "C09" and not any(e["terminal"] for e in evs):
         evs[r.randrange(len(evs))]["terminal"] = True
+    if profile in ("C07", "C08") and r.random() < 0.25:
+        # the same level set watched by a second event function at another scale: coincident crossings of different functions
+        src = dict(r.choice(evs))
+        src["scale"] = 10.0 ** r.randint(-4, 4) if profile == "C08" else r.choice([1.0, 1e-3, 1e3])
+        src["terminal"] = False
+        evs.append(src)
+        nev = len(evs)
+    if profile == "C07" and r.random() < 0.35:
+        # periodic pure-time event: several exactly known roots of ONE function
+        evs.append({"kind": "tsin", "comp": 0, "c": 0.0, "c0": round(t0 + (tf - t0) * r.uniform(0.02, 0.2), 4), "w": round(math.pi / (L * r.uniform(0.15, 0.4)), 4),
+                    "scale": r.choice([1.0, 1.0, 10.0, 0.1]), "direction": r.choice([0, 0, 1, -1]), "terminal": False})
+        nev = len(evs)
     scn["events"] = evs
     lo, hi = min(t0, tf), max(t0, tf)
     roots = []
     for e in evs:
         if e["kind"] == "time":
             roots.append((e["c"], "time"))
+        elif e["kind"] == "tsin":
+            n0 = math.floor((lo - e["c0"]) * e["w"] / math.pi) - 1
+            for n in range(int(n0), int(n0) + int((hi - lo) * e["w"] / math.pi) + 4):
+                tr = e["c0"] + n * math.pi / e["w"]
+                if lo < tr < hi:
+                    roots.append((tr, "tsin"))
         else:
             for tr in _osc_roots(prob, k, t0, e["comp"], e["c"], e["kind"], lo, hi):
                 roots.append((tr, e["kind"]))
@@ -742,8 +764,10 @@ def gen_EV(seed, profile):
             op["plan"] = plan[1:]
     ops = [op]
     if profile == "C07" and r.random() < 0.45 and roots:
-        # split the integration AT a root: integrate(root) then integrate()
-        tr = r.choice(roots)[0]
+        # split the integration AT a root: integrate(root) then integrate(); prefer a later root of a periodic time event
+        # (a crossing of a function that has already fired before the call boundary)
+        later = sorted([x for x in roots if x[1] == "tsin"], key=lambda x: x[0] * direction)[1:]
+        tr = (r.choice(later) if later and r.random() < 0.7 else r.choice(roots))[0]
         if (tr - t0) * direction > 0.05 * L and (tf - tr) * direction > 0.05 * L:
             op1 = dict(op)
             op1["t"] = tr if r.random() < 0.6 else round(tr, 6)
